@@ -6,3 +6,5 @@ import NTV.Proofs.C19
 #print axioms NTV.C19.kronecker_full
 #print axioms NTV.C19.kronecker_zero_modulus
 #print axioms NTV.C19.kronecker_decomposition
+#print axioms NTV.C19.sieve_full
+#print axioms NTV.C19.iterator_full
